@@ -256,7 +256,15 @@ Definition agent_send (cfg : config) (c : chain) (cs1 : cstate) (p : packet) (d 
       else
         let L := d - feer in
         let amt2 := match bound cfg c T dst2 with
-                    | Some (_, k2) => if (k2 =? 0) || negb (L mod k2 =? 0) then None else Some (L / k2)
+                    | Some (_, k2) =>
+                        match p_ori p with
+                        | None => if (k2 =? 0) || negb (L mod k2 =? 0) then None else Some (L / k2)
+                        | Some _ =>
+                            (* observed (8 probes, notes/C03.md): when the INCOMING packet was itself a return (the agent
+                               received released escrow) the agent does not convert to origin units of the next chain:
+                               the inner call reverts unless the scale of that binding is 0, whatever else the agent holds *)
+                            if k2 =? 1 then Some L else None
+                        end
                     | None => Some L
                     end in
         match amt2 with
@@ -361,7 +369,18 @@ Inductive op :=
            (cd : calldata) (broken_cb : bool) (ftok : token) (fee : N)
 | Recv (src dst : chain) (sq : N)
 | Ack (src dst : chain) (sq : N)
-| AddFee (c : chain) (u : nat) (dst : chain) (sq : N) (amt : N).
+| AddFee (c : chain) (u : nat) (dst : chain) (sq : N) (amt : N)
+| Fault (k : nat) (src dst : chain) (sq : N).
+           (* a relay message that is NOT the authentic relay of packet (src, dst, sq) in its current state, delivered
+              by a registered relayer with a genuine proof of whatever the counterparty really stores.  Kinds produced by
+              the harness: 0 MsgRecvPacket whose packet bytes were altered (amount / receiver); 1 MsgAcknowledgement
+              whose acknowledgement bytes were forged (result code flipped between success and error); 2 MsgRecvPacket
+              delivered to a chain that is not the packet's destination; 3 MsgAcknowledgement delivered to a chain that
+              is not the packet's source; 4 MsgAcknowledgement whose packet bytes were altered; 5 (not a relay message) a
+              PacketSent event carrying a well-formed packet (src, dst, next sequence) emitted by a contract that is not the
+              packet contract: evm_hooks.PostTxProcessing must ignore it, nothing was escrowed for it.  packet.go
+              (ValidatePacket, commitment comparison, VerifyPacketCommitment / VerifyPacketAcknowledgement) must
+              reject every one of them: the model has no transition for them. *)
 
 Definition key_is (src dst : chain) (sq : N) (p : packet) : bool :=
   Nat.eqb (p_src p) src && Nat.eqb (p_dst p) dst && N.eqb (p_seq p) sq.
@@ -429,6 +448,7 @@ Definition step_gen (recv : config -> cstate -> packet -> N * cstate * N * optio
       | None => Err
       | Some cs => Ok (set_chain s c cs (packets s))
       end
+  | Fault _ _ _ _ => Err
   end.
 
 Definition step := step_gen recv_chain.
